@@ -43,19 +43,34 @@ Proof.
 Qed.
 
 (* on a valid scenario, a case whose recorded observations are the model's own is not a violation *)
-Lemma oracle_accepts_model : forall G E, empty_table_ok E = true ->
-  forall r s nd ops plan d0 os,
+Lemma oracle_accepts_model : forall G E, g_ndarray G = true -> empty_table_ok E = true ->
+  forall f r s nd ops plan d0 rp0 os aft,
   valid_scenario r s nd ops ->
-  scenario Z 0%Z G E FList r s nd ops (prog_of plan) d0 = Ran os ->
-  case_violates {| k_form := FList; k_raw := r; k_start := s; k_nd := nd; k_ops := ops; k_d0 := d0;
-                   k_plan := plan; k_obs := IRan os |} = false.
+  scenario Z 0%Z G E f r s nd ops (prog_of plan) d0 = Ran os ->
+  case_violates {| k_form := f; k_raw := r; k_start := s; k_nd := nd; k_ops := ops; k_d0 := d0;
+                   k_rp0 := rp0; k_plan := plan; k_obs := IRan os; k_after := aft |} = false.
 Proof.
-  intros G E HE r s nd ops plan d0 os Hv Hs.
-  destruct (st_runs Z 0%Z G E r s nd ops (prog_of plan) d0 Hv) as [qs [st [H1 [H2 [H3 H4]]]]].
+  intros G E HN HE f r s nd ops plan d0 rp0 os aft Hv Hs.
+  destruct (st_runs Z 0%Z G E HN f r s nd ops (prog_of plan) d0 Hv) as [qs [st [H1 [H2 [H3 H4]]]]].
   rewrite H4 in Hs. injection Hs as <-.
   unfold case_violates, ro0. cbn [k_obs k_ops k_raw k_start k_nd].
   fold (final r s nd ops).
   assert (Hvb : ro_valid_b (final r s nd ops) = true).
   { unfold ro_valid_b. apply valid_b_iff. rewrite H1, H2. exists qs, st. auto. }
   rewrite Hvb, H1. rewrite oracle_accepts_model_trace by exact HE. reflexivity.
+Qed.
+
+(* ... and an exception before any model executed is not a violation when some schedule the caller installed
+   was not valid *)
+Lemma oracle_accepts_rejection : forall f r s nd ops plan d0 rp0 stage aft,
+  ~ valid_scenario r s nd ops ->
+  case_violates {| k_form := f; k_raw := r; k_start := s; k_nd := nd; k_ops := ops; k_d0 := d0;
+                   k_rp0 := rp0; k_plan := plan; k_obs := IRejected stage 0; k_after := aft |} = false.
+Proof.
+  intros f r s nd ops plan d0 rp0 stage aft Hnv.
+  unfold case_violates, ro0. cbn [k_obs k_ops k_raw k_start k_nd]. rewrite Z.eqb_refl. simpl andb.
+  apply negb_false_iff. apply negb_true_iff.
+  destruct (forallb ro_valid_b (intended_all {| r_times := r; r_start := s; r_nd := nd |} ops)) eqn:Ef; [|reflexivity].
+  exfalso. apply Hnv. unfold valid_scenario. apply Forall_forall. intros ro Hin.
+  rewrite forallb_forall in Ef. specialize (Ef ro Hin). unfold ro_valid. apply valid_b_iff. exact Ef.
 Qed.
